@@ -1,6 +1,7 @@
-(* JSON ingest: model leg (both indexes against Model/Index.v). *)
+(* JSON ingest: model leg (both indexes against Model/Index.v; the decoded values against the model of
+   encoding/json, Model/Json.v json_roundtrip, expression by expression). *)
 From Coq Require Import List NArith ZArith Bool.
-From BE Require Import Model.Spec Corr.Common Corr.CheckE2E.
+From BE Require Import Model.Spec Corr.Common Corr.CheckE2E Corr.CheckJsonModel.
 From BE Require Export Corr.SpecJson.
 Import ListNotations.
 
@@ -8,5 +9,5 @@ Definition check_j (j : jcase) : verdict :=
   let '(s, d, g) := spec_verdict_j j in
   let '(m1, md1) := model_verdict (fst j) in
   let '(m2, md2) := model_verdict (snd j) in
-  mk_verdict ((m1 || negb md1) && (m2 || negb md2)) s (d && md1 && md2) g.
+  mk_verdict ((m1 || negb md1) && (m2 || negb md2) && json_model_ok j) s (d && md1 && md2) g.
 Definition run (cs : list jcase) := check_all check_j cs.
